@@ -279,6 +279,21 @@ pub struct Chunked {
     pub pos: usize,
     pub chunk: usize,
 }
+/// the same, and every other call is answered with ErrorKind::Interrupted first (a signal arrived: the caller
+/// is expected to retry, as the Read contract says)
+pub struct Interrupting {
+    pub inner: Chunked,
+    pub calls: usize,
+}
+impl std::io::Read for Interrupting {
+    fn read(&mut self, buf: &mut [u8]) -> std::io::Result<usize> {
+        self.calls += 1;
+        if self.calls % 2 == 1 {
+            return Err(std::io::Error::new(std::io::ErrorKind::Interrupted, "interrupted"));
+        }
+        self.inner.read(buf)
+    }
+}
 impl std::io::Read for Chunked {
     fn read(&mut self, buf: &mut [u8]) -> std::io::Result<usize> {
         let n = buf.len().min(self.chunk).min(self.data.len() - self.pos);
@@ -355,6 +370,11 @@ pub fn run_keygen(seed: u64, proc_tag: u64, unseeded: usize, out: &mut Vec<Value
             record(evs, "rln", Some(s), true, thr, rr.map(|_| decode(&o)), Some(o.clone()));
             // ... and the same seed delivered by a reader that hands out a few bytes per call (a pipe, a chained reader)
             if thr == 0 {
+                {
+                    let mut o = Vec::new();
+                    let rr = catch(AssertUnwindSafe(|| rln.seeded_key_gen(Interrupting { inner: Chunked { data: s.clone(), pos: 0, chunk: 50 }, calls: 0 }, &mut o)));
+                    record(evs, "rln", Some(s), false, thr, rr.map(|_| decode(&o)), Some(o.clone()));
+                }
                 for chunk in [1usize, 7, 64] {
                     let mut o = Vec::new();
                     let rr = catch(AssertUnwindSafe(|| rln.seeded_key_gen(Chunked { data: s.clone(), pos: 0, chunk }, &mut o)));
